@@ -8,7 +8,7 @@ use std::sync::{Arc, Mutex};
 
 #[derive(Clone, Copy, Debug)]
 enum Op { /** scale: 300 attach/remove rounds of a device on a free port (ids are never reused, so later ids pass 2^8) */ Churn, /** the library's own NullDevice (answers nothing) attached to ports */ AddNull(&'static [u16]), Add(&'static [u16]), Remove(u16), SetKb, SetDisp, Mmap(u16, bool), Munmap(u16), Read(u16), Write(u16), /** the stored word is not (fully) initialised, as a register or memory word that was never written is */ WriteUninit(u16) }
-const OPS: [Op; 38] = [
+const OPS: [Op; 41] = [
     Op::Churn, Op::AddNull(&[0xFE16]), Op::AddNull(&[0xFE10, 0xFE18]), Op::Add(&[0xFE16]),
     Op::Add(&[0xFE10]), Op::Add(&[0xFE12]), Op::Add(&[0xFE10, 0xFE12]), Op::Add(&[0xFE00]), Op::Add(&[0x3000]), Op::Add(&[]), Op::Add(&[0xFE12, 0xFE12]), Op::Add(&[0xFE14, 0xFE06]),
     Op::Remove(0), Op::Remove(1), Op::Remove(2), Op::Remove(3), Op::Remove(4), Op::Remove(5),
@@ -20,6 +20,8 @@ const OPS: [Op; 38] = [
     // the last I/O address
     Op::Add(&[0xFFFF]), Op::Read(0xFFFF), Op::Write(0xFFFF),
     Op::WriteUninit(0xFE10), Op::WriteUninit(0xFE12),
+    // addresses outside the I/O page whose low bits coincide with those of a free I/O port (alone, and next to a valid port)
+    Op::Add(&[0x3010]), Op::Add(&[0xFDFF]), Op::Add(&[0xFE12, 0x4014]),
 ];
 const PROBES: [u16; 10] = [0xFE00, 0xFE02, 0xFE06, 0xFE10, 0xFE12, 0xFE14, 0xFE16, 0xFE18, 0xFFFC, 0xFFFF];
 
@@ -184,7 +186,7 @@ fn visit(h: &[u16]) -> Visit {
 fn case_of(h: &[u16]) -> String { h.iter().map(|x| x.to_string()).collect::<Vec<_>>().join(",") }
 
 pub fn run(ctx: &Ctx) -> Report {
-    let mut rep = Report::new("explicit-state BFS over histories of 38 operations (incl. 300 attach/remove rounds, the library's NullDevice, ports at xFFFF, stores of words that are not fully initialised): add_device with port sets {[xFE10],[xFE12],[xFE10,xFE12],[xFE00 reserved],[x3000 not I/O],[],[xFE12 twice],[xFE14,xFE06]}, remove_device(0..5), set_keyboard, set_display, mmap_internal(xFE10/xFE00/xFFFC/x3000), munmap_internal(xFE10/xFE00/xFFFC), read(xFE00,xFE10,xFE12,xFFFC), write(xFE10,xFE00); every device is a recording device with a unique tag; after every operation RefPorts decides which device (if any) must have been called, the value read, add/mmap/munmap results, ids never reused, unowned writes leaving memory unchanged; states deduplicated by the real DeviceHandler's Debug state plus effect-free probe reads. non-trivial = states at depth >= 1");
+    let mut rep = Report::new("explicit-state BFS over histories of 41 operations (incl. non-I/O addresses that alias free ports modulo the size of the I/O page, incl. 300 attach/remove rounds, the library's NullDevice, ports at xFFFF, stores of words that are not fully initialised): add_device with port sets {[xFE10],[xFE12],[xFE10,xFE12],[xFE00 reserved],[x3000 not I/O],[],[xFE12 twice],[xFE14,xFE06]}, remove_device(0..5), set_keyboard, set_display, mmap_internal(xFE10/xFE00/xFFFC/x3000), munmap_internal(xFE10/xFE00/xFFFC), read(xFE00,xFE10,xFE12,xFFFC), write(xFE10,xFE00); every device is a recording device with a unique tag; after every operation RefPorts decides which device (if any) must have been called, the value read, add/mmap/munmap results, ids never reused, unowned writes leaving memory unchanged; states deduplicated by the real DeviceHandler's Debug state plus effect-free probe reads. non-trivial = states at depth >= 1");
     let depth = ctx.pick(4usize, 7usize); // (depth 8 completes too: 19.4 M states, 137 M transitions, but takes 14 of the 15 minutes the thorough tier allows itself)
     let (states, transitions, frontier, per_depth, capped) = bfs_hist(ctx, &mut rep.acc, OPS.len(), depth, &case_of, visit);
     rep.acc.states = states; rep.acc.transitions = transitions; rep.acc.nontrivial = states - 1;
